@@ -317,20 +317,31 @@ theorem Grew.step {r r1 r2 : Reader} {bs1 bs2 : Bytes} (h1 : Grew r r1 bs1) (hc 
   · obtain ⟨c1, c2, _⟩ := h2.notEnd hb
     rw [c2, c1, hio1, hc]; simp
 
+theorem requestLoop_complete (f : Nat) (r : Reader) (len : Nat) (hc : r.complete = true) :
+    r.requestLoop f len = (some (), r) := by
+  cases f with
+  | zero => rfl
+  | succ f =>
+    unfold requestLoop
+    split
+    · simp [requestMore, hc]
+    · rfl
+
 /-- The refill loop of `request` / `request_byte_at_offset`, for every fuel. -/
 theorem requestLoop_spec (f : Nat) (r : Reader) (len : Nat) (h : r.Ok) :
     (∃ r' bs, r.requestLoop f len = (some (), r') ∧ r'.Ok ∧ Grew r r' bs ∧
         (len ≤ r.validLen → r' = r) ∧
         (r.src.pre.length + r.src.data.length + 1 ≤ f → len ≤ r'.validLen ∨ r'.complete = true) ∧
         (r' = r ∨ r'.validLen - r'.src.lastGive < len) ∧
-        r'.buf.length ≤ max r.buf.length (3 * r.chunk + len)) ∨
+        r'.buf.length ≤ max r.buf.length (3 * r.chunk + len) ∧
+        (r'.complete = r.complete ∨ r'.validLen < len)) ∨
     (∃ r' bs, r.requestLoop f len = (none, r') ∧ r'.Ok ∧ (∃ x, Ev.lie x ∈ r.src.sched) ∧
         r'.window = r.window ++ bs ∧ r'.position = r.position ∧ r'.mark = r.mark ∧
         r'.validLen = r.validLen + bs.length) := by
   induction f generalizing r with
   | zero =>
     left
-    refine ⟨r, [], rfl, h, Grew.refl r, fun _ => rfl, ?_, Or.inl rfl, by omega⟩
+    refine ⟨r, [], rfl, h, Grew.refl r, fun _ => rfl, ?_, Or.inl rfl, by omega, Or.inl rfl⟩
     intro hf; omega
   | succ f ih =>
     unfold requestLoop
@@ -339,13 +350,13 @@ theorem requestLoop_spec (f : Nat) (r : Reader) (len : Nat) (h : r.Ok) :
       rcases requestMore_spec r h with ⟨hc, he⟩ | ⟨hc, r1, bs, he, hf, hok, hbuf⟩ | ⟨hc, r1, he, hl, hok, hbuf⟩
       · left
         rw [he]
-        exact ⟨r, [], rfl, h, Grew.refl r, fun _ => rfl, fun _ => Or.inr hc, Or.inl rfl, by omega⟩
+        exact ⟨r, [], rfl, h, Grew.refl r, fun _ => rfl, fun _ => Or.inr hc, Or.inl rfl, by omega, Or.inl rfl⟩
       · rw [he]
         simp only
         have hg1 : Grew r r1 bs := by
           have := Grew.step (Grew.refl r) hc hf
           simpa using this
-        rcases ih r1 hok with ⟨r', bs', e', ok', g', hsat, hfuel, hdem, hb'⟩ | ⟨r', bs', e', ok', _, w', p', m', v'⟩
+        rcases ih r1 hok with ⟨r', bs', e', ok', g', hsat, hfuel, hdem, hb', hcm⟩ | ⟨r', bs', e', ok', _, w', p', m', v'⟩
         · left
           have hg : Grew r r' (bs ++ bs') :=
             { window := by rw [g'.window, hg1.window, List.append_assoc]
@@ -366,7 +377,7 @@ theorem requestLoop_spec (f : Nat) (r : Reader) (len : Nat) (h : r.Ok) :
                 obtain ⟨p1, hp1⟩ := hg1.sched
                 obtain ⟨p2, hp2⟩ := g'.sched
                 exact ⟨p1 ++ p2, by rw [hp1, hp2, List.append_assoc]⟩ }
-          refine ⟨r', bs ++ bs', e', ok', hg, fun hh => by omega, ?_, ?_, ?_⟩
+          refine ⟨r', bs ++ bs', e', ok', hg, fun hh => by omega, ?_, ?_, ?_, ?_⟩
           · intro hfu
             by_cases hb : bs = []
             · obtain ⟨c1, _, _, _, _⟩ := hf.atEnd hb
@@ -381,6 +392,16 @@ theorem requestLoop_spec (f : Nat) (r : Reader) (len : Nat) (h : r.Ok) :
             · rw [hd, hf.validLen, hf.lastGive]; omega
             · exact hd
           · rw [hf.chunk] at hb'; omega
+          · by_cases hb : bs = []
+            · obtain ⟨c1, _, _, _, _⟩ := hf.atEnd hb
+              have hr' : r' = r1 := by
+                have := requestLoop_complete f r1 len c1
+                rw [this] at e'; simp at e'; exact e'.symm
+              right; rw [hr', hf.validLen, hb]; simpa using hv
+            · obtain ⟨c1, _, _⟩ := hf.notEnd hb
+              rcases hcm with hcm | hcm
+              · left; rw [hcm, c1]
+              · right; exact hcm
         · right
           obtain ⟨x, hx⟩ := ‹∃ x, Ev.lie x ∈ r1.src.sched›
           obtain ⟨p1, hp1⟩ := hg1.sched
@@ -392,7 +413,7 @@ theorem requestLoop_spec (f : Nat) (r : Reader) (len : Nat) (h : r.Ok) :
         exact ⟨r1, [], rfl, hok, hl.lies, by simp [hl.window], hl.position, hl.mark, by simp [hl.validLen]⟩
     · left
       simp only [hv, ↓reduceIte]
-      exact ⟨r, [], rfl, h, Grew.refl r, fun _ => rfl, fun _ => Or.inl (by omega), Or.inl rfl, by omega⟩
+      exact ⟨r, [], rfl, h, Grew.refl r, fun _ => rfl, fun _ => Or.inl (by omega), Or.inl rfl, by omega, Or.inl rfl⟩
 
 end Reader
 end Flussab
